@@ -146,6 +146,22 @@ def m_orphan(r, d, s):
     if x["n"] > 0 and not is_plain(c):
         return None
     kind = r.random()
+    if w >= 2 and r.random() < 0.4:
+        # the un-owned leaf in a LATER position of a concatenation whose other parts are sound
+        a = r.randint(1, w - 1)
+        bad = ["orphan", w - a] if r.random() < 0.6 else ["sl", ["orphan", w - a + 1], ["s", 1, None, None]]
+        foreign = [(mj, n) for mj, od in enumerate(d["mods"]) if mj != mi for n, sw in pool_of(od) if sw == w - a]
+        if foreign and r.random() < 0.4:
+            mj, n = r.choice(foreign)
+            bad = ["foreign", mj, n]
+        first = expr_of_width(r, md, a, 0)
+        if first is not None:
+            parts = [first, bad]
+            if r.random() < 0.3 and a >= 2:
+                parts = [expr_of_width(r, md, 1, 0), bad, expr_of_width(r, md, a - 1, 0)]
+            if all(q is not None for q in parts):
+                c[1] = ["cat", parts]
+                return d
     if kind < 0.4:
         c[1] = ["orphan", w]
     elif kind < 0.7:
